@@ -76,8 +76,7 @@ def pmap(fn, items, n=16):
 
 
 def run(cmd, timeout=120, cwd=None, env=None, binary=False):
-    e = dict(os.environ)
-    if env: e.update(env)
+    e = lib._limit_env(env)
     try:
         r = subprocess.run(cmd, cwd=cwd, env=e, timeout=timeout, stdout=subprocess.PIPE, stderr=subprocess.PIPE)
         return r.returncode, (r.stdout if binary else r.stdout.decode('utf-8', 'replace')), r.stderr.decode('utf-8', 'replace')
